@@ -36,6 +36,10 @@ func init() {
 		Rule: "case = (layout, chunk of that layout's location list). Layouts: 8 hand-written variants (root name/depth, cwd) of a catalogue with links to files/dirs inside/outside at first/middle/last component, relative and absolute, chains, loops, dangling, out-and-back, prefix-sharing siblings, symlinked root; every 4th layout (and all beyond the 8) PRNG-generated. " +
 			"Locations: every component sequence up to length 3 (4 in the first 6 layouts of the thorough tier) walked from 4 start dirs over {entry names of the directory reached, '.', '..', 'nx'} in plain, absolute, './', trailing '/', '/.', doubled-separator forms, plus random longer walks. " +
 			"Every location meets the 4 primary configurations (RelativeFileSystemLibrary{abs RootDir}, FSLibrary over MapFS, os.DirFS, os.Root) in all 7 contexts (top level, 3 loader files, 2-level loader, loader via file link, loader via dir link) through LoadSource; the other 10 configurations (6 more RootDir spellings, symlinked FS roots, recording wrappers) and the interpreter entry points (LoadFile | LoadFileContext | (load-file), nested through loader files) see a hash-selected 2/7 (thorough 4/7) of the (location, configuration, context) triples. " +
+			"Interpreter loads of a loader file spell the top-level request differently from its true location in half of the loads ('.' component, doubled separator, cwd-relative instead of absolute and vice versa). " +
+			"Hop contexts (interpreter only; one hash-selected hop per (location, configuration) at rate 3/7, thorough 5/7): a hop file in one loader directory is loaded by LoadFile | LoadFileContext | (load-file) and, while it executes, loads a loader file of another (or the same) directory by a RELATIVE request ('sub/ldr.lisp', '../ldr.lisp', unclean, through a directory or file link, the hop file itself reached through a directory link) either through a host Go builtin calling env.LoadFile | env.LoadFileContext or through its own (load-file); the loader file then loads the location under test, which must resolve against the loader file's directory. " +
+			"An unconfined RelativeFileSystemLibrary{} is exercised in the loader and hop contexts for the relative-resolution clause only. " +
+			"A recording wrapper around the interpreter's library observes (loading context, request, true location) of every library call: the context of each nested call must be the true location the library returned for the file doing the loading. " +
 			"Driver: the real `elps run [--root-dir]` binary over ~600 (thorough 4000) locations x 5 invocations, and one strace'd worker (no successful open of an outside file between the sentinels of a load). " +
 			"A coverage key is lib|rootspec|context|entry|location-shape|outcome where location-shape = (form flags, #components bucket, '..' present, links followed: kind x position x inside/outside, model errno, final inside/outside, for both readings when they differ); loads whose location is a plain miss (ENOENT, no link, no '..') are counted as trivial and give no key.",
 		Assumptions: []string{
@@ -76,13 +80,14 @@ type c20Tier struct {
 	deepLayouts int // ... and one longer in the first deepLayouts layouts
 	nrand       int
 	rate        int // non-primary (configuration, context) pairs per location: rate/7
+	hopRate     int // hop contexts: one per (location, interpreter configuration) at hopRate/7
 }
 
 func c20TierOf(tier string) c20Tier {
 	if tier == "thorough" {
-		return c20Tier{layouts: 32, chunks: 96, depth: 3, deepLayouts: 6, nrand: 6000, rate: 4}
+		return c20Tier{layouts: 32, chunks: 96, depth: 3, deepLayouts: 6, nrand: 6000, rate: 4, hopRate: 5}
 	}
-	return c20Tier{layouts: 8, chunks: 48, depth: 3, deepLayouts: 0, nrand: 1500, rate: 2}
+	return c20Tier{layouts: 8, chunks: 48, depth: 3, deepLayouts: 0, nrand: 1500, rate: 2, hopRate: 3}
 }
 
 func c20Cases(tier string) int {
@@ -109,6 +114,28 @@ func (f *c20RecFS) Open(name string) (fs.File, error) {
 	return f.inner.Open(name)
 }
 
+// c20RecLib wraps the library of an interpreter runtime and records what the
+// interpreter asked it and what it answered: the loading context (the
+// SourceContext the interpreter derived from its stack), the request and the
+// true location the library returned.
+type c20RecLib struct {
+	inner lisp.SourceLibrary
+	calls []c20LibCall
+}
+
+type c20LibCall struct {
+	ctxLoc  string
+	req     string
+	trueloc string
+	ok      bool
+}
+
+func (l *c20RecLib) LoadSource(ctx lisp.SourceContext, loc string) (string, string, []byte, error) {
+	name, trueloc, data, err := l.inner.LoadSource(ctx, loc)
+	l.calls = append(l.calls, c20LibCall{ctxLoc: ctx.Location(), req: loc, trueloc: trueloc, ok: err == nil})
+	return name, trueloc, data, err
+}
+
 type c20Lib struct {
 	kind    string // relfs mapfs dirfs recmapfs recdirfs osroot
 	family  string // finding-key prefix
@@ -117,19 +144,29 @@ type c20Lib struct {
 	lib     lisp.SourceLibrary
 	isFS    bool
 	inMem   bool
-	relRoot bool   // relfs with a relative RootDir
+	relRoot bool // relfs with a relative RootDir
+	// noRoot: RelativeFileSystemLibrary without a RootDir.  Nothing confines
+	// it, so only the last clause of the property is judged on it (relative
+	// locations resolve against the directory of the loading file): it is
+	// exercised through the interpreter in loader and hop contexts only.
+	noRoot  bool
 	fsRoot  string // absolute spelled directory an FS library is rooted at
 	rec     *c20RecFS
 	lispToo bool // also exercised through the interpreter entry points
 	primary bool // meets every location in every context
 	run     *rt.R
 	st      *c20LocState
+	recl    *c20RecLib // the recording wrapper the interpreter runtime loads through
 	closer  func()
 }
 
 type c20LocState struct {
 	loc   string
 	armed bool
+	// a hop: the running hop file loads hopReq through hopEntry (once)
+	hopReq   string
+	hopEntry string // LoadFile | LoadFileContext (called by a host builtin) | load-file (the hop file's own call)
+	hopArmed bool
 }
 
 type c20Builtin struct {
@@ -154,6 +191,8 @@ func c20Libs(l *sandbox.Layout) []*c20Lib {
 			lib:     &lisp.RelativeFileSystemLibrary{RootDir: rs.Path},
 			lispToo: rs.Label == "abs" || rs.Label == "abs-symlink" || rs.Label == "rel-to-cwd"})
 	}
+	libs = append(libs, &c20Lib{kind: "relfs-noroot", family: "relfs-noroot", spec: "none", noRoot: true,
+		lib: &lisp.RelativeFileSystemLibrary{}, lispToo: true})
 	absRoot := l.Root.Path()
 	libs = append(libs, &c20Lib{kind: "mapfs", family: "mapfs", spec: "mem", isFS: true, inMem: true, fsRoot: absRoot,
 		lib: &lisp.FSLibrary{FS: l.Tree.MapFS(l.Root, true)}, lispToo: true})
@@ -188,11 +227,21 @@ func c20Libs(l *sandbox.Layout) []*c20Lib {
 	return libs
 }
 
+// rootOf is the directory the configuration confines loads to: the layout's
+// root, or the top of the file system for the unconfined configuration.
+func (lb *c20Lib) rootOf(l *sandbox.Layout) *fsmodel.Node {
+	if lb.noRoot {
+		return l.Tree.Top
+	}
+	return l.Root
+}
+
 func (lb *c20Lib) runtime() *rt.R {
 	if lb.run != nil {
 		return lb.run
 	}
-	r := rt.New(rt.Opts{Library: lb.lib})
+	lb.recl = &c20RecLib{inner: lb.lib}
+	r := rt.New(rt.Opts{Library: lb.recl})
 	st := &c20LocState{}
 	if rc := r.Env.InPackage(lisp.Symbol("verif")); !rc.IsNil() {
 		panic(rc.String())
@@ -203,6 +252,31 @@ func (lb *c20Lib) runtime() *rt.R {
 			return lisp.String(st.loc)
 		}
 		return lisp.String(sandbox.Sentinel)
+	}})
+	// The hop builtins: a hop file asks whether its load is to be made by its
+	// own (load-file ...) call, and otherwise hands over to c20-hop, a host Go
+	// builtin that calls a LoadFile entry point of the environment it was
+	// given while the hop file is executing (the way an application-defined
+	// `include` does).
+	r.Env.AddBuiltins(true, c20Builtin{"c20-hop-lisp?", lisp.Formals(), func(e *lisp.LEnv, a *lisp.LVal) *lisp.LVal {
+		return lisp.Bool(st.hopArmed && st.hopEntry == "load-file")
+	}})
+	r.Env.AddBuiltins(true, c20Builtin{"c20-hop-req", lisp.Formals(), func(e *lisp.LEnv, a *lisp.LVal) *lisp.LVal {
+		if st.hopArmed {
+			st.hopArmed = false
+			return lisp.String(st.hopReq)
+		}
+		return lisp.String(sandbox.Sentinel)
+	}})
+	r.Env.AddBuiltins(true, c20Builtin{"c20-hop", lisp.Formals(), func(e *lisp.LEnv, a *lisp.LVal) *lisp.LVal {
+		if !st.hopArmed {
+			return lisp.Nil()
+		}
+		st.hopArmed = false
+		if st.hopEntry == "LoadFileContext" {
+			return e.LoadFileContext(context.Background(), st.hopReq)
+		}
+		return e.LoadFile(st.hopReq)
 	}})
 	if rc := r.Env.InPackage(lisp.String(lisp.DefaultUserPackage)); !rc.IsNil() {
 		panic(rc.String())
@@ -257,7 +331,7 @@ func c20CtxBases(l *sandbox.Layout, lb *c20Lib, ld *sandbox.Loader) []string {
 
 func c20Oracle(l *sandbox.Layout, lb *c20Lib, ld *sandbox.Loader, loc string) c20Expect {
 	t := l.Tree
-	root := l.Root
+	root := lb.rootOf(l)
 	ex := c20Expect{allowed: map[*fsmodel.Node]bool{}}
 	isAbs := strings.HasPrefix(loc, "/")
 	bases := c20CtxBases(l, lb, ld)
@@ -337,7 +411,8 @@ func c20Oracle(l *sandbox.Layout, lb *c20Lib, ld *sandbox.Loader, loc string) c2
 					plain = false
 				}
 			}
-			if plain {
+			// (a file without a marker is not lisp source: loading it fails in the reader)
+			if plain && only.Marker != "" {
 				ex.mustServe = only
 			}
 		}
@@ -346,8 +421,11 @@ func c20Oracle(l *sandbox.Layout, lb *c20Lib, ld *sandbox.Loader, loc string) c2
 }
 
 // c20Shape names the way a served file lies outside the allowed set.
-func c20Shape(l *sandbox.Layout, ex c20Expect, served *fsmodel.Node, loc string) string {
-	root := l.Root
+func c20Shape(l *sandbox.Layout, lb *c20Lib, ex c20Expect, served *fsmodel.Node, loc string) string {
+	root := lb.rootOf(l)
+	if lb.noRoot {
+		return "wrong-file"
+	}
 	if served != nil && served.Under(root) {
 		return "wrong-file-inside-root"
 	}
@@ -603,8 +681,8 @@ func c20Run(w *fw.W, idx int) {
 				// by a hash of (location, configuration, context) so that each
 				// configuration x context still sees every location class.
 				h := int(fw.HashString(loc+"|"+lb.label+"|"+c20CtxLabel(ld)) % 7)
-				doDirect := lb.primary || h < tp.rate
-				doLisp := lb.lispToo && h >= 7-tp.rate
+				doDirect := (lb.primary || h < tp.rate) && !lb.noRoot
+				doLisp := lb.lispToo && h >= 7-tp.rate && !(lb.noRoot && ld == nil)
 				if !doDirect && !doLisp {
 					continue
 				}
@@ -614,6 +692,16 @@ func c20Run(w *fw.W, idx int) {
 				}
 				if doLisp {
 					ck.viaLisp(lb, ld, loc, ex, int(fw.HashString(loc)%3)+ci+1)
+				}
+			}
+			// Hop contexts (interpreter only): the loader file is itself loaded
+			// from a running file by a relative request.  One hash-selected hop
+			// per (location, configuration), taken at rate hopRate/7.
+			if lb.lispToo && len(l.Hops) > 0 {
+				h := fw.HashString("hop|" + loc + "|" + lb.label)
+				if int(h%7) < tp.hopRate {
+					hp := &l.Hops[int(h/7)%len(l.Hops)]
+					ck.viaLisp(lb, hp, loc, c20Oracle(l, lb, hp, loc), int(h/7/64))
 				}
 			}
 		}
@@ -631,9 +719,14 @@ type c20Checker struct {
 	trivial  bool
 	// violate is how a violation is reported (worker or driver flavour)
 	violate func(key, summary, detail string)
+	// keySuffix qualifies the finding keys of the load being judged: empty
+	// except in hop contexts, where it names the entry point that loaded the
+	// loader file from the running hop file ("@hop:LoadFile" ...).
+	keySuffix string
 }
 
 func (ck *c20Checker) report(key, summary string, detail func() string) {
+	key += ck.keySuffix
 	ck.st.reported[key]++
 	ck.rec.Count("violation:"+key, 1)
 	if ck.st.reported[key] > 2 {
@@ -686,6 +779,9 @@ func (ck *c20Checker) describe(lb *c20Lib, ld *sandbox.Loader, entry, loc string
 	} else {
 		fmt.Fprintf(&sb, " RootDir=%q", lb.lib.(*lisp.RelativeFileSystemLibrary).RootDir)
 	}
+	if ld != nil && ld.HopReq != "" {
+		ctx += fmt.Sprintf("\n           hop: %s is loaded first and, while it executes, loads the request %q (-> %s), which performs the nested load", ld.Spelled, ld.HopReq, ld.InnerSpelled)
+	}
 	fmt.Fprintf(&sb, "\ncontext  : %s\nentry    : %s\nlocation : %q\njoined   : %q\n", ctx, entry, loc, ex.full)
 	rd := func(name string, r fsmodel.Res) {
 		fmt.Fprintf(&sb, "model %s: ", name)
@@ -723,11 +819,11 @@ func (ck *c20Checker) describe(lb *c20Lib, ld *sandbox.Loader, entry, loc string
 
 // judgeServed checks one served file against the expectation.
 func (ck *c20Checker) judgeServed(lb *c20Lib, ld *sandbox.Loader, entry, loc string, ex c20Expect, served *fsmodel.Node, what string) bool {
-	root := ck.l.Root
+	root := lb.rootOf(ck.l)
 	if served != nil && served.Under(root) && (ex.anyInside || ex.allowed[served]) {
 		return true
 	}
-	shape := c20Shape(ck.l, ex, served, loc)
+	shape := c20Shape(ck.l, lb, ex, served, loc)
 	key := lb.family + ":" + shape
 	if lb.family == "relfs-relroot-dotdot" {
 		// one mechanism (the prefix test against a root spelled "..", see NOTES),
@@ -818,6 +914,7 @@ func (ck *c20Checker) checkAsked(lb *c20Lib, served bool, loc string) {
 
 func (ck *c20Checker) direct(lb *c20Lib, ld *sandbox.Loader, loc string, ex c20Expect) {
 	const entry = "LoadSource"
+	ck.keySuffix = ""
 	ctxLoc := ck.ctxLocation(lb, ld)
 	_, trueloc, data, err := lb.lib.LoadSource(lisp.NewSourceContext("c20ctx", ctxLoc), loc)
 	ck.rec.Eval(1)
@@ -874,16 +971,64 @@ func (ck *c20Checker) direct(lb *c20Lib, ld *sandbox.Loader, loc string, ex c20E
 	}
 }
 
+// c20Respell spells the top-level request for a loader file differently from
+// the true location the library will return for it, without changing what it
+// denotes under either reading: "." components and doubled separators are
+// neutral lexically and for the kernel; for RelativeFileSystemLibrary the
+// request is also given relative to the working directory when the canonical
+// spelling is absolute and vice versa (cwd is a real directory, and the
+// library resolves a top-level relative request against it).
+func c20Respell(l *sandbox.Layout, lb *c20Lib, ld *sandbox.Loader, target string, h uint64) (string, string) {
+	dot := func(p string) (string, string) {
+		i := strings.LastIndex(p, "/")
+		if i < 0 {
+			return "./" + p, "dot"
+		}
+		return p[:i] + "/./" + p[i+1:], "dot"
+	}
+	switch h % 8 {
+	case 4:
+		return dot(target)
+	case 5:
+		if i := strings.Index(strings.TrimLeft(target, "/"), "/"); i >= 0 {
+			i += len(target) - len(strings.TrimLeft(target, "/"))
+			return target[:i] + "/" + target[i:], "dblsep"
+		}
+		return dot(target)
+	case 6, 7:
+		if lb.isFS {
+			return dot(target)
+		}
+		if strings.HasPrefix(target, "/") {
+			return sandbox.RelPath(l.CwdRel, ld.Spelled), "cwd-relative"
+		}
+		return l.Tree.BasePath + "/" + ld.Spelled, "absolute"
+	}
+	return target, ""
+}
+
+var c20HopEntries = [3]string{"LoadFile", "LoadFileContext", "load-file"}
+
 func (ck *c20Checker) viaLisp(lb *c20Lib, ld *sandbox.Loader, loc string, ex c20Expect, flavour int) {
 	r := lb.runtime()
 	st := lb.st
 	st.loc, st.armed = loc, true
+	st.hopArmed = false
+	ck.keySuffix = ""
+	defer func() { ck.keySuffix = "" }()
 	target := loc
+	respell, hopEntry := "", ""
 	var chain []string
 	if ld != nil {
-		target = ck.spell(lb, ld.Spelled)
+		target, respell = c20Respell(ck.l, lb, ld, ck.spell(lb, ld.Spelled), fw.HashString("respell|"+loc+"|"+lb.label+"|"+ld.Label))
 		chain = ld.Chain
+		if ld.HopReq != "" {
+			hopEntry = c20HopEntries[(flavour/3)%3]
+			st.hopReq, st.hopEntry, st.hopArmed = ld.HopReq, hopEntry, true
+			ck.keySuffix = "@hop:" + hopEntry
+		}
 	}
+	lb.recl.calls = lb.recl.calls[:0]
 	r.Trace = r.Trace[:0]
 	r.Stderr.Reset()
 	var v *lisp.LVal
@@ -899,14 +1044,25 @@ func (ck *c20Checker) viaLisp(lb *c20Lib, ld *sandbox.Loader, loc string, ex c20
 		entry = "load-file"
 		v = r.Env.LoadString("c20top", `(load-file "`+target+`")`)
 	}
+	// the entry point that loaded the file making the i-th library call's successor
+	loadedBy := []string{entry}
+	if respell != "" {
+		entry += "~" + respell
+	}
+	if hopEntry != "" {
+		entry += "+hop:" + hopEntry
+		loadedBy = append(loadedBy, hopEntry)
+		ck.rec.Count("loads_via_hop", 1)
+	}
 	if ld != nil {
 		entry += "+nested"
 	}
+	ck.judgeContexts(lb, ld, entry, loc, ex, loadedBy)
 	ck.rec.Eval(1)
 	ck.rec.Count("loads_via_interpreter", 1)
 	ck.rec.SetAdd("entry_points", entry)
 	tr := r.TranscriptOf(v, 0, 0)
-	root := ck.l.Root
+	root := lb.rootOf(ck.l)
 	// 1. confinement of everything evaluated
 	var probes []*fsmodel.Node
 	for _, p := range tr.Trace {
@@ -917,7 +1073,7 @@ func (ck *c20Checker) viaLisp(lb *c20Lib, ld *sandbox.Loader, loc string, ex c20
 		}
 		probes = append(probes, n)
 	}
-	if ck.l.Secret != "" && (strings.Contains(tr.Value, ck.l.Secret) || strings.Contains(tr.Stderr, ck.l.Secret)) {
+	if ck.l.Secret != "" && !lb.noRoot && (strings.Contains(tr.Value, ck.l.Secret) || strings.Contains(tr.Stderr, ck.l.Secret)) {
 		ck.report(lb.family+":outside-content-in-error", fmt.Sprintf("%s %s: location %q: content of the non-lisp outside file appears in the result/stderr", lb.label, entry, loc),
 			func() string {
 				return ck.describe(lb, ld, entry, loc, ex) + "value: " + tr.Value + "\nstderr: " + tr.Stderr + "\n"
@@ -943,7 +1099,7 @@ func (ck *c20Checker) viaLisp(lb *c20Lib, ld *sandbox.Loader, loc string, ex c20
 	}
 	rest := probes[len(chain):]
 	if len(rest) == 0 {
-		if !tr.IsErr {
+		if !tr.IsErr && !lb.noRoot {
 			ck.report(lb.family+":value-without-evaluation", fmt.Sprintf("%s %s: location %q returned %s without evaluating any sandbox file", lb.label, entry, loc, tr.Value), func() string { return ck.describe(lb, ld, entry, loc, ex) })
 		}
 		if ex.mustServe != nil {
@@ -977,5 +1133,57 @@ func (ck *c20Checker) viaLisp(lb *c20Lib, ld *sandbox.Loader, loc string, ex c20
 	ck.cover(lb, ld, entry, loc, ex, out)
 	if ck.verbose {
 		ck.w.Logf("%-22s %-16s %-22s %-40q %s value=%s trace=%s", lb.label, c20CtxLabel(ld), entry, loc, out, tr.Value, tr.TraceString())
+	}
+}
+
+// judgeContexts checks the loading contexts the interpreter handed to the
+// library during one top-level load.  The loads of a case form a chain (every
+// file's last form is its only load, and an error ends the whole load), so the
+// file doing the i-th load (i >= 1) is the file the (i-1)-th call served, and
+// its identity is the true location the library returned for it
+// (SourceLibrary.LoadSource: "An interpreter must use trueloc as an identifier
+// for the requested source file anywhere the SourceContext ctx is
+// unavailable"; SourceContext.Location: "the current source location (e.g.
+// file path) being evaluated which caused the SourceLibrary LoadSource
+// operation.  This may be used in determining the location of relative target
+// source locations").  A context naming anything else - e.g. the request as
+// the caller spelled it - makes relative locations resolve against a directory
+// that is not the loading file's.  Key: <family>:loading-context-not-trueloc:<entry
+// point that loaded the loading file>.
+func (ck *c20Checker) judgeContexts(lb *c20Lib, ld *sandbox.Loader, entry, loc string, ex c20Expect, loadedBy []string) {
+	calls := lb.recl.calls
+	suffix := ck.keySuffix
+	ck.keySuffix = "" // the key names the entry point itself
+	defer func() { ck.keySuffix = suffix }()
+	for i := 1; i < len(calls); i++ {
+		prev := calls[i-1]
+		if !prev.ok {
+			ck.rec.Count("library_call_after_failed_call", 1)
+			return
+		}
+		by := "load-file"
+		if i-1 < len(loadedBy) {
+			by = loadedBy[i-1]
+		}
+		ck.rec.Count("loading_contexts_checked", 1)
+		if prev.req != prev.trueloc {
+			ck.rec.Count("loading_contexts_checked_request_differs_from_trueloc", 1)
+			ck.rec.Count("loading_contexts_checked_request_differs_from_trueloc:"+by, 1)
+		}
+		if calls[i].ctxLoc == prev.trueloc {
+			continue
+		}
+		ck.report(lb.family+":loading-context-not-trueloc:"+by,
+			fmt.Sprintf("%s %s: the file loaded through %s by request %q has the true location %q, but the load it then made (%q) reached the library with the loading context %q", lb.label, entry, by, prev.req, prev.trueloc, calls[i].req, calls[i].ctxLoc),
+			func() string {
+				var sb strings.Builder
+				sb.WriteString(ck.describe(lb, ld, entry, loc, ex))
+				sb.WriteString("library calls of this load (context location, request -> true location):\n")
+				for k, c := range calls {
+					fmt.Fprintf(&sb, "  #%d ctx=%q req=%q -> trueloc=%q ok=%v\n", k, c.ctxLoc, c.req, c.trueloc, c.ok)
+				}
+				return sb.String()
+			})
+		return
 	}
 }
